@@ -835,7 +835,7 @@ func repoMain(args []string) {
 	var hashes []string
 	var samples []string
 	var b strings.Builder
-	b.WriteString("From GK Require Import PropCheck.\nOpen Scope string_scope.\nOpen Scope Z_scope.\n")
+	b.WriteString("From GK Require Import PropCheck.\nOpen Scope string_scope.\nOpen Scope list_scope.\nOpen Scope Z_scope.\n")
 	if *mode == "c14" {
 		b.WriteString("Definition cases : list snapcase := [\n")
 	} else {
